@@ -90,6 +90,11 @@ def hopVia (g : Graph) (rp : RelPat) (pOther : NodePat) (d : Dir) (cur : Nat) (r
     | none => none
   else none
 
+/-- `EdgeCountOperator` of the pinned tree: `MATCH …-[:T]->… RETURN count(*)` answered with
+the number of relationships of the type, whatever else the pattern said -/
+def edgeCountLegacy (g : Graph) (types : List Name) : Nat :=
+  g.rels.countP fun r => types.isEmpty || types.contains r.type
+
 /-- one hop enumerated from the left end: (left node, relationship, right node) -/
 def hopFromLeft (g : Graph) (pa : NodePat) (rp : RelPat) (pb : NodePat) : List (Nat × Nat × Nat) :=
   g.nodes.flatMap fun a =>
@@ -121,6 +126,27 @@ def pushedTargetOkLegacy (props : List (Name × Val)) (k : Name) (v : Val) : Boo
 Integer/Float: the integer first) -/
 
 def Atom.ordCmpLegacy (a b : Atom) : Ordering := Atom.canonCmp a b
+
+/-! ### known deviations of the engine on grammar v2 (all reproduced on the real code) -/
+
+/-- comma patterns of one MATCH: the engine tracks used relationships per *path*, so two
+patterns of one clause may bind the same relationship -/
+def matchPatsLegacy (g : Graph) (de : Bool) : List PathPat → MState → List MState
+  | [], s => [s]
+  | p :: ps, s => (matchPath g de p ⟨s.row, []⟩).flatMap (matchPatsLegacy g de ps)
+
+/-- an OPTIONAL MATCH that shares no variable with the rows so far is planned as a plain
+cartesian product: no row survives when the pattern has no match -/
+def evalMatchOptionalLegacy (g : Graph) (de : Bool) (pats : List PathPat) (row : Row) : List Row :=
+  matchClause g de pats row
+
+/-- `WITH <aggregates only>` over no input rows: the engine emits no row at all -/
+def withAggRowsLegacy (g : Graph) (p : Proj) (rows : List Row) : Except Err (List (List Val × Row)) :=
+  if rows.isEmpty then .ok [] else projectRows g p rows
+
+def okLength {α : Type} : Except Err (List α) → Option Nat
+  | .ok l => some l.length
+  | .error _ => none
 
 /-! ### Distinct -/
 
